@@ -99,6 +99,59 @@ FLUID_XML = """<mujoco><option timestep="0.01" density="1000" viscosity="0.5" in
 <body pos="0 0 1"><joint name="a" type="hinge" axis="0 1 0" damping="0.2"/><geom type="ellipsoid" size="0.1 0.05 0.02" pos="0.3 0 0" fluidshape="ellipsoid"/>
 <body pos="0.3 0 0"><joint name="b" type="hinge" axis="1 0 0" damping="0.1"/><geom type="box" size="0.1 0.05 0.03" pos="0.3 0 0"/></body></body></worldbody></mujoco>"""
 
+# directed model for the integrator x flag cross product: a medium (fluid forces: ellipsoid model or inertia-box
+# model), joint springs, linear and polynomial joint dampers (one dof with zero linear part), a spatial and a fixed
+# tendon with stiffness and damping, actuators (clamped motor, velocity and position servo, tendon motor).  The dense
+# medium makes the implicit integrators' fluid derivative matter; RK4 (explicit) is only stable in the light one.
+FLUID_TMPL = """
+<mujoco>
+  <option density="{rho}" viscosity="{mu}" wind="0.3 -0.2 0.1" timestep="0.004"/>
+  <default><geom contype="0" conaffinity="0"/></default>
+  <worldbody>
+    <body name="float" pos="0 0 1">
+      <freejoint/>
+      <geom type="ellipsoid" size=".08 .04 .02" mass="0.4" {fs}/>
+      <body pos="0.12 0 0">
+        <joint name="h1" type="hinge" axis="0 1 0" stiffness="2" damping="0.03 0.004 0.002" springref="0.2"/>
+        <geom type="box" size=".06 .03 .004" euler="20 0 0" mass="0.2" {fs}/>
+        <site name="s1" pos="0.05 0 0.02"/>
+      </body>
+      <body pos="-0.12 0 0">
+        <joint name="h2" type="hinge" axis="0 0 1" stiffness="1" damping="0 0.002 0.001"/>
+        <geom type="capsule" size=".02 .05" euler="0 70 0" mass="0.2"/>
+        <site name="s2" pos="-0.05 0 0.02"/>
+      </body>
+    </body>
+    <body name="arm" pos="1 0 1">
+      <joint name="a1" type="hinge" axis="0 1 0" damping="0.1" armature="0.01"/>
+      <geom type="box" size=".1 .05 .005" pos=".1 0 0" mass="0.3" {fs}/>
+      <body pos=".2 0 0">
+        <joint name="a2" type="slide" axis="0 0 1" stiffness="5" damping="0.5"/>
+        <geom type="sphere" size=".04" mass="0.1"/>
+      </body>
+    </body>
+  </worldbody>
+  <tendon>
+    <spatial name="t" stiffness="3" damping="0.4" springlength="0.2"><site site="s1"/><site site="s2"/></spatial>
+    <fixed name="tf" stiffness="2" damping="0.3"><joint joint="a1" coef="1"/><joint joint="a2" coef="-0.5"/></fixed>
+  </tendon>
+  <actuator>
+    <motor joint="h1" gear="0.5" ctrllimited="true" ctrlrange="-1 1"/>
+    <velocity joint="a1" kv="0.8"/>
+    <position name="pa2" joint="a2" kp="4" kv="0.5" ctrllimited="true" ctrlrange="-0.5 0.5"/>
+    <motor tendon="tf" gear="0.3"/>
+  </actuator>
+  <sensor><jointpos joint="h1"/><jointvel joint="a1"/><actuatorfrc actuator="pa2"/><tendonvel tendon="t"/></sensor>
+  <keyframe>
+    <key qpos="0 0 1 1 0 0 0 0.3 -0.2 0.4 0.05" qvel="1.5 -1 0.5 2 -1.5 3 1 -2 2.5 0.4" ctrl="1.7 0.6 -0.9 0.5"/>
+  </keyframe>
+</mujoco>
+"""
+FLUID_DENSE_ELLIPSOID = FLUID_TMPL.format(rho=1000, mu=0.9, fs='fluidshape="ellipsoid"')
+FLUID_DENSE_BOX = FLUID_TMPL.format(rho=1000, mu=0.9, fs="")
+FLUID_LIGHT = FLUID_TMPL.format(rho=2, mu=0.002, fs='fluidshape="ellipsoid"')
+INTEGRATORS = ("Euler", "implicitfast", "implicit", "RK4")
+
 SLEEP_XML = """<mujoco><worldbody><geom type="plane" size="5 5 .1"/><body pos="0 0 0.2"><freejoint/><geom size="0.1"/></body>
 <body pos="1 0 0.5"><joint type="hinge" axis="0 1 0"/><geom size="0.1" pos="0.2 0 0"/></body></worldbody></mujoco>"""
 
@@ -363,13 +416,24 @@ def make_state(xml, kind, seed):
     ds = batchkit.random_states(rng, m, 1)[0]
     if m.nu:
       ds.ctrl[:] = rng.normal(0, 1.0, m.nu).astype(np.float32)
+  elif kind == "key":
+    ds = mujoco.MjData(m)
+    mujoco.mj_resetDataKeyframe(m, ds, 0)
+    ds.qvel[:] = (ds.qvel + rng.normal(0, 0.1, m.nv)).astype(np.float32)
   else:
     ds = mujoco.MjData(m)
     models.random_state(rng, m, ds, vel_scale=0.5, unnormalized=False)
   return ds
 
 
-def oracle_case(xml, kind, seed, dis, enb, nstep=2):
+def integrator_value(name):
+  import mujoco
+
+  I = mujoco.mjtIntegrator
+  return {"Euler": I.mjINT_EULER, "implicitfast": I.mjINT_IMPLICITFAST, "implicit": I.mjINT_IMPLICIT, "RK4": I.mjINT_RK4}[name]
+
+
+def oracle_case(xml, kind, seed, dis, enb, nstep=2, integrator=None):
   """Returns dict(fwd=[(field, err)], counts={..}, step=[..], skipped=..)."""
   import mujoco
 
@@ -377,6 +441,8 @@ def oracle_case(xml, kind, seed, dis, enb, nstep=2):
   import mujoco_warp as mjw
 
   m = mujoco.MjModel.from_xml_string(xml)
+  if integrator is not None:
+    m.opt.integrator = integrator_value(integrator)
   m.opt.disableflags, m.opt.enableflags = int(dis), int(enb)
   ds = make_state(xml, kind, seed)
   mm = mjw.put_model(m)
@@ -401,7 +467,10 @@ def oracle_case(xml, kind, seed, dis, enb, nstep=2):
   if out["counts"]:
     return out
   W = mujoco.mjtWarning
-  if any(ds.warning[w].number for w in (W.mjWARN_BADQACC, W.mjWARN_BADQVEL, W.mjWARN_BADQPOS)):
+  # MuJoCo checks for divergence at the START of a step: also discard runs whose MuJoCo state has already blown up
+  # (explicit RK4 with springs / clamps switched off); a blow-up on the MJWarp side only is still compared
+  mj_state = np.concatenate([ds.qpos, ds.qvel, ds.qacc])
+  if any(ds.warning[w].number for w in (W.mjWARN_BADQACC, W.mjWARN_BADQVEL, W.mjWARN_BADQPOS)) or not np.all(np.isfinite(mj_state)) or np.max(np.abs(mj_state)) > 1e6:
     out["skipped"] = "mujoco-unstable"
     return out
   out["step"] = mjcmp.compare_fields(dd, ds, STEP, rtol=RTOL)
@@ -416,6 +485,13 @@ def subsets(rng, dis, enb, n_random):
   out += [((f,), dis[f], 0) for f in sup_d] + [((f,), 0, enb[f]) for f in sup_e]
   for a, b in (("SPRING", "DAMPER"), ("EULERDAMP", "DAMPER"), ("CONSTRAINT", "CONTACT"), ("GRAVITY", "ACTUATION"), ("SPRING", "GRAVITY"), ("ACTUATION", "DAMPER"), ("LIMIT", "FRICTIONLOSS"), ("EQUALITY", "REFSAFE")):
     out.append(((a, b), dis[a] | dis[b], enb["ENERGY"]))
+  # every subset of the bits the integrator guards mention (forward.implicit: ACTUATION, SPRING, DAMPER;
+  # forward.euler: EULERDAMP, DAMPER)
+  grp = ("ACTUATION", "SPRING", "DAMPER", "EULERDAMP")
+  for k in range(1, 16):
+    fs = tuple(f for j, f in enumerate(grp) if (k >> j) & 1)
+    if len(fs) >= 2 and not any(set(fs) == set(o[0]) for o in out):
+      out.append((fs, sum(dis[f] for f in fs), 0))
   for _ in range(n_random):
     fd = [f for f in sup_d if rng.random() < 0.3]
     fe = [f for f in sup_e if rng.random() < 0.5]
@@ -566,7 +642,7 @@ def run(res):
   res.rule = (
     "proof obligations over the regenerated tables/program; extractor truth tables re-evaluated by Python on the real enums (every row); put_model called with every MuJoCo flag bit; "
     "non-interference predictions replayed on the real step() (bit clear vs set, bitwise comparison of the committed unaffected fields) for each flag x {RICH_XML, FLAG_XML} x {Euler, implicitfast}; "
-    "oracle: mjw.forward/step vs mujoco.mj_forward/mj_step under identical flags on RICH_XML, FLAG_XML and random models (plane + sphere/capsule contacts, actuators, tendons, equality, limits, frictionloss) "
+    "oracle: mjw.forward/step vs mujoco.mj_forward/mj_step under identical flags on RICH_XML, FLAG_XML (each under several integrators), a fluid model (dense / light medium, ellipsoid / inertia-box fluid forces, springs, linear + polynomial dampers, tendons, actuators) under Euler, implicitfast, implicit and RK4 with the SAME flag subsets (singles, 8 pairs, all subsets of ACTUATION/SPRING/DAMPER/EULERDAMP, random subsets), and random models (plane + sphere/capsule contacts, actuators, tendons, equality, limits, frictionloss) "
     "for each single flag, 8 directed pairs and random subsets; fields qacc, qfrc_*, actuator_force, sensordata, energy, counts ncon/nefc/ne/nf/nl, after 2 steps qpos/qvel/act; tolerance 1e-3*(1+|field|)"
   )
   t0 = time.time()
@@ -629,24 +705,35 @@ def run(res):
   # ---- oracle vs MuJoCo --------------------------------------------------------------------------------------
   rng = np.random.default_rng(vlib.seed() + 32)
   cases = []
-  nrand_fixed = 20 if quick else 120
-  for mname, xml, kind in (("RICH", batchkit.RICH_XML, "near"), ("FLAG", FLAG_XML, "near")):
-    for names, dv, ev in subsets(rng, dis, enb, nrand_fixed):
-      cases.append((mname, xml, kind, vlib.seed() + 5, names, dv, ev))
-  nmodels = 12 if quick else 60
+  nrand_fixed = 4 if quick else 100
+  EI = ("Euler", "implicitfast")
+  fixed = (
+    ("RICH", batchkit.RICH_XML, "near", EI if quick else INTEGRATORS),
+    ("FLAG", FLAG_XML, "near", ("Euler", "RK4") if quick else INTEGRATORS),
+    # the fluid model under all four integrators: dense medium for the (semi-)implicit ones, light medium for RK4
+    ("FLUID-dense-ellipsoid", FLUID_DENSE_ELLIPSOID, "key", EI),  # full implicit: its ellipsoid derivative differs without flags (C27)
+    ("FLUID-dense-box", FLUID_DENSE_BOX, "key", ("implicit",) if quick else ("Euler", "implicitfast", "implicit")),
+    ("FLUID-light", FLUID_LIGHT, "key", INTEGRATORS),
+  )
+  for mname, xml, kind, integs in fixed:
+    ss = subsets(rng, dis, enb, nrand_fixed)  # the SAME subsets under every integrator
+    for integ in integs:
+      for names, dv, ev in ss:
+        cases.append((f"{mname}/{integ}", xml, kind, vlib.seed() + 5, names, dv, ev, integ))
+  nmodels = 8 if quick else 60
   for k in range(nmodels):
     xml = random_xml(k)
     ss = subsets(rng, dis, enb, 5 if quick else 40)
     singles = ss[1:21]
     pick = [ss[0]] + [singles[(k * 4 + j) % len(singles)] for j in range(4 if quick else len(singles))] + ss[21:]
     for names, dv, ev in pick:
-      cases.append((f"random{k}", xml, "random", vlib.seed() + 7000 + k, names, dv, ev))
+      cases.append((f"random{k}", xml, "random", vlib.seed() + 7000 + k, names, dv, ev, None))
   base_bad = {}
   mism, nskip, ncount = [], 0, 0
   worst = 0.0
-  for mname, xml, kind, seed, names, dv, ev in cases:
+  for mname, xml, kind, seed, names, dv, ev, integ in cases:
     try:
-      r = oracle_case(xml, kind, seed, dv, ev)
+      r = oracle_case(xml, kind, seed, dv, ev, integrator=integ)
     except Exception as e:
       r = {"fwd": [("exception", 0.0)], "counts": {}, "step": [], "skipped": "", "exception": f"{type(e).__name__}: {e}"}
     res.count()
@@ -669,12 +756,12 @@ def run(res):
       ncount += 1
     new = bad_fields
     if new:
-      mism.append({"model": mname, "flags": list(names), "disableflags": int(dv), "enableflags": int(ev), "fields": new, "errors": [(f, e) for f, e in r["fwd"] + r["step"]][:6], "counts": r["counts"], "exception": r.get("exception"), "xml": xml, "state_kind": kind, "seed": seed})
+      mism.append({"model": mname, "flags": list(names), "disableflags": int(dv), "enableflags": int(ev), "fields": new, "errors": [(f, e) for f, e in r["fwd"] + r["step"]][:6], "counts": r["counts"], "exception": r.get("exception"), "xml": xml, "state_kind": kind, "seed": seed, "integrator": integ})
   res.obligation("oracle: mjw.forward/step == mujoco under identical flags", not mism, f"{len(cases)} runs, {nskip} skipped (unstable / overflow / model disagrees without flags), {ncount} with active constraints, {len(mism)} mismatches")
   res.sample({"kind": "oracle", "runs": len(cases), "skipped": nskip, "with_constraints": ncount})
   for f in mism[:4]:
     found = True
-    res.violation("C32:oracle:" + "+".join(f["flags"]) + ":" + f["fields"][0], f"flags {f['flags']}: MJWarp differs from MuJoCo in {f['fields']} (model {f['model']})", f)
+    res.violation("C32:oracle:" + (f["integrator"] or "model-integrator") + ":" + "+".join(f["flags"]) + ":" + f["fields"][0], f"flags {f['flags']}: MJWarp differs from MuJoCo in {f['fields']} (model {f['model']})", f)
 
   phase("oracle")
   # ---- directed: regression cases of repaired findings (original keys) and open findings --------------------------------------------------------------------------------
@@ -735,7 +822,7 @@ def replay(res, path):
     print(json.dumps(energy_case()["runs"], indent=1))
     return 0
   if isinstance(data, dict) and "xml" in data and "disableflags" in data:
-    out = oracle_case(data["xml"], data.get("state_kind", "random"), data["seed"], data["disableflags"], data["enableflags"])
+    out = oracle_case(data["xml"], data.get("state_kind", "random"), data["seed"], data["disableflags"], data["enableflags"], integrator=data.get("integrator"))
     print(json.dumps({k: (v if not isinstance(v, set) else sorted(v)) for k, v in out.items()}, indent=1, default=str))
     return 0
   if isinstance(data, dict) and "flag" in data and "xml" in data:
